@@ -21,7 +21,7 @@ func init() {
 		ID: "C14", Level: "exploration",
 		Rule: "cases = chains driven by the NFT director (issue-class with every restriction-flag combination / mint / edit / transfer with and without metadata change incl. the do-not-modify sentinel / burn / re-mint / transfer-class, each by owner, class creator and stranger); after every tx the complete NFT state read through the module's queries is compared with a reference ownership map; non-trivial = successful tx or targeted hostile rejection; distinct = distinct (op, actor role, class flags, change kind, outcome)",
 		Assume: []string{"the set of addresses that can own tokens is the set the director ever used as recipient", "a failed tx leaves no trace because BaseApp drops its branch"},
-		Cases:  func(t string) int { return tierN(t, 8, 32) },
+		Cases:  func(t string) int { return tierN(t, 16, 32) },
 		Run:    runNFT,
 	})
 }
